@@ -410,7 +410,12 @@ func (o *Bytes) BinaryOp(op token.Token, rhs Object) (Object, error) {
 			if len(o.Value)+len(rhs.Value) > MaxBytesLen {
 				return nil, ErrBytesLimit
 			}
-			return &Bytes{Value: append(o.Value, rhs.Value...)}, nil
+			// a fresh backing array: appending in place would write into
+			// spare capacity that o may share with other values
+			v := make([]byte, 0, len(o.Value)+len(rhs.Value))
+			v = append(v, o.Value...)
+			v = append(v, rhs.Value...)
+			return &Bytes{Value: v}, nil
 		}
 	}
 	return nil, ErrInvalidOperator
